@@ -180,9 +180,10 @@ class Build:
             pre = out + ".i"
             r = self._run(["gcc", "-E"] + flags + [src], "preprocess " + u.path)
             txt = r.stdout
-            for pat, rep in u.sed:
+            for ent in u.sed:
+                pat, rep = ent[0], ent[1]
                 txt, n = re.subn(pat, rep, txt)
-                if n == 0:
+                if n == 0 and not (len(ent) > 2 and ent[2] == "optional"):
                     raise FrameworkError("scaled-constant pattern %r not found in %s" % (pat, u.path))
             with open(pre, "w") as f:
                 f.write(txt)
@@ -533,8 +534,8 @@ def native_build(build, q, outdir):
                 if r.returncode != 0:
                     raise FrameworkError("native preprocess failed: " + r.stderr[-2000:])
                 txt = r.stdout
-                for pat, rep in u.sed:
-                    txt = re.sub(pat, rep, txt)
+                for ent in u.sed:
+                    txt = re.sub(ent[0], ent[1], txt)
                 pre = os.path.join(outdir, "pre%d.i" % i)
                 open(pre, "w").write(txt)
                 r = subprocess.run(["gcc"] + NATIVE_CFLAGS + ["-x", "cpp-output", "-c", pre, "-o", o], capture_output=True, text=True)
